@@ -5,6 +5,10 @@ DEBUG = dict(
     go_tags="tr",
     imports=["Base.Bytes", "Model.WireFormat", "Model.Transports", "Check.C19c"],
     case_type="c19case", find_bad_from="find_bad_from",
-    rigs=[dict(test="TestC19Wire", timeout_quick=300, timeout_thorough=1200)],
+    rigs=[dict(test="TestC19Wire", timeout_quick=300, timeout_thorough=1200),
+          dict(test="TestC19Chan", timeout_quick=300, timeout_thorough=1200),
+          dict(test="TestC19Ws", timeout_quick=300, timeout_thorough=1200),
+          dict(test="TestC19Http", timeout_quick=300, timeout_thorough=1200),
+          dict(test="TestC19HttpE2E", timeout_quick=300, timeout_thorough=1200)],
     reason_text={"1": "implementation differs from the Gallina model", "2": "property predicate false on the observed history"},
     rule="debug")
